@@ -228,9 +228,11 @@ class Gen:
             return None
         info = th.proc.tinfo[mc]
         x = r.random()
-        if not info.types or x < 0.08:
+        if not info.types or x < (0.2 if len(info.types) < 3 else 0.05):
             tid = self.next_type; self.next_type += 1
-            label = r.choice(["", "t%d" % tid, "type with spaces %d" % tid, "main", "x" * 30 + str(tid)]
+            # half of the labels are the same strings in every process (SPMD codes
+            # register the same task types), the others are private to this type
+            label = r.choice(["", "main", "work", "io", "t%d" % tid, "type with spaces %d" % tid, "t%d" % tid, "x" * 30 + str(tid)]
                              + ([r.choice(boundary_labels())] if r.random() < 0.3 else []))
             return (th.key, mc + "Yc", obs.u32(tid) + label.encode() + b"\0", True)
         if not info.tasks or x < 0.25:
